@@ -78,7 +78,8 @@ def project(setmap, subset):
 
 
 def execute(case, scratch):
-    world, sched = case["world"], case["schedule"]
+    world, sched = copy.deepcopy(case["world"]), case["schedule"]
+    W.normalise_shared_dbs(world)
     top = scratch.fresh("t")
     stats = {"tus": 0, "faults": {}, "probes": {}, "cli_runs": 0, "variants": 0}
     try:
